@@ -12,6 +12,16 @@ type CandidateRelatedAddress struct {
 	Port    int
 }
 
+// relatedPort is the related port of a candidate built from a config: a related port
+// without a related address cannot be expressed in the textual form, it is dropped.
+func relatedPort(address string, port int) int {
+	if address == "" {
+		return 0
+	}
+
+	return port
+}
+
 // String makes CandidateRelatedAddress printable.
 func (c *CandidateRelatedAddress) String() string {
 	if c == nil {
